@@ -59,7 +59,20 @@ type kase struct {
 	Seed       uint64
 }
 
+var (
+	slowMu               sync.Mutex
+	slowestMS, slowestID int
+)
+
 const deadlineMS = 700
+
+// hangMargin: how long after its context deadline a cycle may still be running before it is called a hang.
+var hangMargin = func() time.Duration {
+	if v, err := strconv.Atoi(os.Getenv("VERIF_C19_HANG_MARGIN_S")); err == nil && v > 0 {
+		return time.Duration(v) * time.Second // (diagnosis only)
+	}
+	return 10 * time.Second
+}()
 
 func main() {
 	wit.Quiet()
@@ -518,6 +531,11 @@ func hostile(run *ev.Run, dir string) {
 		}(w, mine)
 	}
 	wg.Wait()
+	slowMu.Lock()
+	if slowestID >= 0 && slowestID < len(cases) {
+		run.Extra("slowest_hostile_case", fmt.Sprintf("%d ms: %s (deadline %d ms)", slowestMS, cases[slowestID].Desc, cases[slowestID].DeadlineMS))
+	}
+	slowMu.Unlock()
 }
 
 func randBytes(r *rand.Rand, n int) []byte {
@@ -569,7 +587,7 @@ func runBatch(run *ev.Run, dir string, w int, cases []kase) {
 				if cur != lastStart {
 					lastStart, lastChange = cur, time.Now()
 				}
-				if cur >= 0 && time.Since(lastChange) > time.Duration(byID[cur].DeadlineMS)*time.Millisecond+10*time.Second {
+				if cur >= 0 && time.Since(lastChange) > time.Duration(byID[cur].DeadlineMS)*time.Millisecond+hangMargin {
 					hung = cur
 					cancel() // kills the child
 					<-done
@@ -701,7 +719,7 @@ func progress(p string) (int, int, map[int]string) {
 	st, en := -1, -1
 	res := map[int]string{}
 	sc := bufio.NewScanner(f)
-	sc.Buffer(make([]byte, 1<<20), 1<<20)
+	sc.Buffer(make([]byte, 1<<20), 64<<20)
 	for sc.Scan() {
 		ln := sc.Text()
 		var id, ms int
@@ -716,6 +734,11 @@ func progress(p string) (int, int, map[int]string) {
 			if len(parts) == 4 {
 				res[id] = parts[3]
 			}
+			slowMu.Lock()
+			if ms > slowestMS {
+				slowestMS, slowestID = ms, id
+			}
+			slowMu.Unlock()
 		}
 	}
 	return st, en, res
